@@ -104,7 +104,12 @@ def cases(tier, seed, focus=None):
                                              "dtype": "float64" if (code + m) % 3 else "float32", "scale": 1.0}})
     # ---- random part
     n_rand = 500 if tier == "quick" else 16000
-    for i in range(n_rand):
+    n_wide = 300 if tier == "quick" else 8000
+    rng_w = random.Random(40400 + seed)  # own stream: the cases of the first n_rand iterations are unchanged
+    for i in range(n_rand + n_wide):
+        wide = i >= n_rand  # second part: scales over all the decades the dtype carries
+        if wide:
+            rng = rng_w
         dtype = rng.choice(["float64", "float64", "float32"])
         spec = _rand_agg(rng, dtype, i)
         if spec["name"] == "CAGrad" and tier == "quick" and rng.random() < 0.5:
@@ -114,7 +119,8 @@ def cases(tier, seed, focus=None):
         if kind == "wellcond" and m > n:
             kind = "gauss"
         mat = {"kind": kind, "m": m, "n": n, "seed": rng.randrange(10**6), "dtype": dtype,
-               "scale": 10.0 ** rng.choice([0.0, rng.uniform(-3, 6), _wide_exp(rng, dtype, spec)])}
+               "scale": 10.0 ** (_wide_exp(rng, dtype, spec) if wide else
+                                 rng.choice([0.0, rng.uniform(-3, 6), rng.uniform(-3, 6)]))}
         if kind == "lowrank":
             mat["rank"] = rng.randint(1, max(1, min(m, n) - 1))
         if kind == "ternary":
@@ -125,6 +131,7 @@ def cases(tier, seed, focus=None):
     # ---- rate part: the Frank-Wolfe bound is tight only for a large budget on matrices whose mean is far from the
     # min-norm point; it must hold at every scale (nothing in the solver may be absolute)
     n_rate = 160 if tier == "quick" else 3000
+    rng = rng_w
     for i in range(n_rate):
         dtype = "float32" if i % 2 else "float64"
         spec = {"name": "MGDA", "epsilon": 0.0, "max_iters": rng.choice([100, 1000, 1000, 3000])}
